@@ -84,6 +84,8 @@ class Project(object):
     def check_changes(self):
         # type: () -> t.Iterator[None]
         self._context_cache.clear()
+        # package names follow the __init__.py files on disk, which may have come or gone
+        self._norm_cache.clear()
         yield
 
     def get_nmodule(self, name, filename):
